@@ -76,9 +76,8 @@ def run_cproc(src, d, target, name='u'):
 
 
 def run_ref(src, d, compiler, cs, name='u'):
-    cf = os.path.join(d, name + '.ref.c')
-    if not os.path.exists(cf):
-        _write(cf, src)
+    cf = os.path.join(d, '%s.%s.ref.c' % (name, compiler))
+    _write(cf, src)
     exe = os.path.join(d, '%s.%s.exe' % (name, compiler))
     cmd = [compiler] + REF_FLAGS + ([] if cs else ['-funsigned-char']) + ['-o', exe, cf, '-lm']
     p = subprocess.run(cmd, stdout=subprocess.PIPE, stderr=subprocess.STDOUT, timeout=900)
@@ -96,6 +95,9 @@ class Verdict:
         self.kind, self.detail, self.lines, self.got, self.want = kind, detail, lines, got, want
 
 
+_seq = [0]
+
+
 def evaluate(cases, d, target='x86_64-sysv', cs=True, extra_decl='', depth=0):
     """three-way evaluation of a list of cases -> list of Verdict (same order)."""
     n = len(cases)
@@ -103,7 +105,8 @@ def evaluate(cases, d, target='x86_64-sysv', cs=True, extra_decl='', depth=0):
     if n == 0:
         return verdicts
     src = G.build_unit(cases, extra_decl=extra_decl).encode()
-    name = 'u%d_%d' % (depth, n)
+    _seq[0] += 1
+    name = 'u%d' % _seq[0]
     sc = run_cproc(src, d, target, name)
 
     def split():
@@ -183,3 +186,298 @@ def replay_cmd(target, cs):
             'ASAN_OPTIONS=detect_leaks=0 ./ref.exe > want.txt; echo "status $?" >> want.txt\n'
             'if cmp -s got.txt want.txt; then echo "outputs equal"; exit 0; else diff got.txt want.txt; exit 1; fi' % (
                 target, os.path.join(build.VERIF, 'vlib', 'il2c.py'), ref))
+
+
+# ---------------------------------------------------------------------------
+# worker: a batch of specs of one stratum -> summary
+
+CONFIRM_PER_KEY = 2
+
+
+def make_cases(stratum, specs, m, nv, extra):
+    cases, invalid, filtered = [], 0, 0
+    for sp in specs:
+        if stratum == 'S1':
+            c = G.s1_case(m, sp, nv, extra)
+        elif stratum == 'S2':
+            c = G.s2_case(m, sp, nv, extra)
+        elif stratum == 'S3':
+            c = G.s3_case(m, sp, nv, extra)
+        elif stratum == 'S4':
+            c = G.s4_case(sp)
+        else:
+            c = G.s5_case(sp)
+        if c is None:
+            invalid += 1
+            continue
+        filtered += c.filtered
+        if c.key is None:
+            continue
+        cases.append(c)
+    return cases, invalid, filtered
+
+
+def first_diff(got, want):
+    for i in range(min(len(got), len(want))):
+        if got[i] != want[i]:
+            return i
+    return min(len(got), len(want))
+
+
+def describe(case, v):
+    """(input label, got, want) of the first differing output line of a mismatching case"""
+    i = first_diff(v.got, v.want)
+    if case.lines_per:
+        lab = case.inputs[min(i // case.lines_per, len(case.inputs) - 1)] if case.inputs else ''
+        if case.lines_per > 1:
+            lab += ' (output %d of %d for this tuple)' % (i % case.lines_per + 1, case.lines_per)
+    else:
+        lab = 'output line %d' % i
+    g = v.got[i].decode() if i < len(v.got) else '<missing>'
+    w = v.want[i].decode() if i < len(v.want) else '<missing>'
+    return lab, g, w
+
+
+def _job(arg):
+    stratum, specs, nv, extra, target, cs = arg
+    m = G.Model(cs)
+    cases, invalid, filtered = make_cases(stratum, specs, m, nv, extra)
+    xd = G.S5_EXTRA if stratum == 'S5' else ''
+    res = {'stratum': stratum, 'target': target, 'functions': len(cases), 'invalid': invalid, 'filtered': filtered, 'evals': 0,
+           'distinct': set(), 'ambiguous': [], 'viol': [], 'samples': [], 'nonok': 0}
+    if not cases:
+        return res
+    d = ilexec.workdir('c01.')
+    try:
+        verdicts = evaluate(cases, d, target, cs, xd)
+        confirmed = {}
+        for idx, (c, v) in enumerate(zip(cases, verdicts)):
+            nin = len(c.inputs)
+            if v.kind == 'ok':
+                res['evals'] += nin
+                res['distinct'].update(v.want)
+                if len(res['samples']) < 2 and v.want and idx % 37 == 5:
+                    res['samples'].append({'function': c.desc.strip(), 'operands': c.inputs[-1], 'target': target,
+                                           'output(hex bit pattern)': v.want[-1].decode(), 'agree': 'cproc+il2c = gcc = clang'})
+                continue
+            res['nonok'] += 1
+            if v.kind == 'ambiguous':
+                res['ambiguous'].append({'case': c.key, 'function': c.desc.strip()[:300], 'why': v.detail[:400], 'tuples': nin})
+                continue
+            key = c.key
+            files, what = {}, ''
+            if v.kind == 'mismatch':
+                if v.got is not None and v.want is not None and not v.detail:
+                    lab, g, w = describe(c, v)
+                    what = '%s with %s: cproc-compiled code gives %s, gcc and clang give %s' % (c.desc.strip(), lab, g, w)
+                    nbad = sum(1 for i in range(max(len(v.got), len(v.want))) if v.got[i:i + 1] != v.want[i:i + 1])
+                    what += ' (%d of %d output lines differ)' % (nbad, len(v.want))
+                else:
+                    what = '%s: %s' % (c.desc.strip(), v.detail)
+                    if 'stops in this case' in v.detail:
+                        key += '/crash-at-run-time'
+            elif v.kind == 'cproc-fail':
+                st = int(v.detail.split()[1].rstrip(':')) if v.detail.startswith('status') else -1
+                key = ('rejects-valid/' if st == 1 else 'crash/') + key
+                what = '%s: cproc %s, gcc and clang accept and run it cleanly' % (c.desc.strip(), v.detail)
+            else:
+                key = v.kind + '/' + key
+                what = '%s: %s' % (c.desc.strip(), v.detail)
+            # replay alone before reporting
+            if confirmed.get(key, 0) < CONFIRM_PER_KEY:
+                sub = os.path.join(d, 'replay%d' % idx)
+                os.mkdir(sub)
+                v2 = evaluate([c], sub, target, cs, xd)[0]
+                shutil.rmtree(sub, ignore_errors=True)
+                if v2.kind != v.kind:
+                    res['ambiguous'].append({'case': c.key, 'function': c.desc.strip()[:300], 'tuples': nin,
+                                             'why': 'not reproducible alone: %s in the unit, %s alone (%s)' % (v.kind, v2.kind, v2.detail[:200])})
+                    continue
+                confirmed[key] = confirmed.get(key, 0) + 1
+                files = {'input.c': G.build_unit([c], extra_decl=xd).encode()}
+                if v.got is not None:
+                    files['got.cproc.txt'] = b'\n'.join(v2.got or []) + b'\n'
+                    files['want.gcc-clang.txt'] = b'\n'.join(v2.want or []) + b'\n'
+            res['viol'].append({'key': key, 'what': what[:1500], 'files': files, 'cmd': replay_cmd(target, cs), 'tuples': nin})
+    finally:
+        shutil.rmtree(d, ignore_errors=True)
+    return res
+
+
+def _corpus_job(path):
+    """one hand-written program, three ways"""
+    src = open(path, 'rb').read()
+    name = os.path.basename(path)
+    res = {'stratum': 'S6', 'target': 'x86_64-sysv', 'functions': 1, 'invalid': 0, 'filtered': 0, 'evals': 0, 'distinct': set(),
+           'ambiguous': [], 'viol': [], 'samples': [], 'nonok': 0}
+    d = ilexec.workdir('c01.')
+    try:
+        outs = {}
+        for comp in ('gcc', 'clang'):
+            outs[comp] = ilexec.exec_reference(src, d, name='p', compiler=comp)
+        g, c = outs['gcc'], outs['clang']
+        if g[0] != c[0] or g[1] != c[1] or not isinstance(g[0], int) or not 0 <= g[0] < 64:
+            res['nonok'] = 1
+            res['ambiguous'].append({'case': 'S6/' + name, 'function': name, 'tuples': 1,
+                                     'why': 'references disagree or are not clean: gcc status %s, clang status %s: %s' % (
+                                         g[0], c[0], (g[2] or c[2] or g[1])[-300:].decode(errors='replace') if g[0] != 'compile-error' else g[1][-300:].decode(errors='replace'))})
+            return res
+        want = g[1].split(b'\n')
+        sc = run_cproc(src, d, 'x86_64-sysv', 'p')
+        key = what = None
+        if sc.kind == 'cproc-fail':
+            key = ('rejects-valid/' if sc.status == 1 else 'crash/') + 'S6/' + name
+            what = '%s: cproc status %s: %s' % (name, sc.status, sc.diag)
+        elif sc.kind != 'ok' and sc.kind != 'abnormal':
+            key = sc.kind + '/S6/' + name
+            what = '%s: %s' % (name, sc.diag)
+        else:
+            exe = os.path.join(d, 'p.cproc.exe')
+            st, out, err = ilexec.run(exe, timeout=RUN_TIMEOUT)
+            got = out.split(b'\n')
+            if out != g[1] or st != g[0]:
+                i = first_diff(got, want)
+                lab = (want[i] if i < len(want) else got[i] if i < len(got) else b'').split(b':')[0].decode(errors='replace')[:40]
+                key = 'S6/%s/%s' % (name, lab or 'exit-status')
+                what = '%s: output line %d: cproc-compiled program prints %r, gcc and clang print %r; exit status %s vs %s %s' % (
+                    name, i + 1, got[i][:200] if i < len(got) else None, want[i][:200] if i < len(want) else None, st, g[0],
+                    err[-300:].decode(errors='replace'))
+        if key:
+            res['nonok'] = 1
+            res['viol'].append({'key': key, 'what': what[:1500], 'files': {'input.c': src}, 'cmd': replay_cmd('x86_64-sysv', True), 'tuples': 1})
+        else:
+            lines = [ln for ln in want if ln]
+            res['evals'] = len(lines)
+            res['distinct'].update(lines)
+            res['samples'].append({'program': name, 'output lines compared': len(lines), 'exit status': g[0], 'last line': lines[-1].decode(errors='replace') if lines else ''})
+    finally:
+        shutil.rmtree(d, ignore_errors=True)
+    return res
+
+
+def _dispatch(arg):
+    if arg[0] == 'S6':
+        return _corpus_job(arg[1])
+    return _job(arg)
+
+
+# ---------------------------------------------------------------------------
+
+def chunks(lst, n):
+    return [lst[i:i + n] for i in range(0, len(lst), n)]
+
+
+def main(chk):
+    quick = chk.quick
+    nv, extra = (5, False) if quick else (None, True)
+    X86, OTHER = 'x86_64-sysv', ('aarch64', 'riscv64')
+    jobs = []
+    s4cap = None
+
+    def add(stratum, specs, per, targets=((X86, True),)):
+        for target, cs in targets:
+            for ch in chunks(specs, per):
+                jobs.append((stratum, ch, nv, extra, target, cs))
+
+    uns = tuple((t, False) for t in OTHER)
+    if chk.want('S1'):
+        add('S1', list(G.s1_specs()), 110)
+        add('S1', list(G.s1_specs(True)), 110, uns)
+    if chk.want('S2'):
+        add('S2', list(G.s2_specs()), 110)
+        add('S2', list(G.s2_specs(True)), 110, uns)
+    if chk.want('S3'):
+        add('S3', list(G.s3_specs()), 110)
+        add('S3', list(G.s3_specs(True)), 110, uns)
+    if chk.want('S4'):
+        trees = []
+        maxn = 3 if quick else 5
+        cap = int(os.environ.get('C01_S4_CAP', '0')) or (10 ** 9 if quick else 30000)
+        total = 0
+        for n in range(1, maxn + 1):
+            for t in G.trees(n):
+                total += 1
+                if len(trees) < cap:
+                    trees.append(t)
+        if total > len(trees):
+            s4cap = {'trees_in_bound': total, 'trees_run': len(trees), 'order': 'by node count, then grammar order'}
+            chk.notes.append('S4: %d of the %d statement trees with <= %d nodes were run (cap; all trees with <= 4 nodes are included)' % (len(trees), total, maxn))
+        add('S4', trees, 150)
+    if chk.want('S5'):
+        add('S5', list(G.s5_specs()), 100)
+    corpus = sorted(glob.glob(os.path.join(CORPUS, '*.c')))
+    if chk.want('S6'):
+        for p in corpus:
+            jobs.append(('S6', p))
+    # big first; VERIF_SEED only rotates the order
+    jobs.sort(key=lambda j: -(len(j[1]) if j[0] != 'S6' else 1000))
+    if chk.seed and jobs:
+        k = chk.seed % len(jobs)
+        jobs = jobs[k:] + jobs[:k]
+    chk.log('%d jobs' % len(jobs))
+
+    tot = {}
+    distinct = set()
+    ambiguous, samples = [], []
+    done = 0
+    for r in fs.pimap(_dispatch, jobs):
+        done += 1
+        key = r['stratum'] + ('' if r['target'] == X86 else '@unsigned-char-targets')
+        t = tot.setdefault(key, {'functions': 0, 'evaluations': 0, 'filtered_undefined': 0, 'constraint_violations_not_generated': 0,
+                                 'ambiguous': 0, 'violating_functions': 0})
+        t['functions'] += r['functions']
+        t['evaluations'] += r['evals']
+        t['filtered_undefined'] += r['filtered']
+        t['constraint_violations_not_generated'] += r['invalid']
+        t['ambiguous'] += sum(a['tuples'] for a in r['ambiguous'])
+        t['violating_functions'] += len(r['viol'])
+        distinct |= r['distinct']
+        ambiguous += r['ambiguous']
+        if len(samples) < 14 and r['samples'] and not any(s.get('stratum') == key for s in samples[-2:]):
+            s = dict(r['samples'][0])
+            s['stratum'] = key
+            samples.append(s)
+        for v in r['viol']:
+            chk.violation(v['key'], v['what'], files=v['files'], cmd=v['cmd'])
+        if done % 20 == 0:
+            chk.log('%d/%d jobs, %d evaluations, %d violating functions, %d ambiguous' % (
+                done, len(jobs), sum(x['evaluations'] for x in tot.values()), sum(x['violating_functions'] for x in tot.values()), len(ambiguous)))
+        if chk.expired():
+            chk.notes.append('deadline reached after %d of %d jobs' % (done, len(jobs)))
+            break
+    chk.strata = tot
+    chk.log('ambiguous cases: %d' % len(ambiguous))
+    for a in ambiguous[:6]:
+        chk.log('  ambiguous: %s: %s' % (a['case'], a['why'][:300].replace('\n', ' ')))
+    for a in ambiguous[:12]:
+        chk.notes.append('ambiguous: %s: %s: %s' % (a['case'], a['function'].replace('\n', ' ')[:160], a['why'][:240]))
+    nfun = sum(x['functions'] for x in tot.values())
+    cov = {
+        'evaluations': sum(x['evaluations'] for x in tot.values()),
+        'functions_compiled': nfun,
+        'distinct_nontrivial': len(distinct),
+        'ambiguous': sum(x['ambiguous'] for x in tot.values()),
+        'ambiguous_cases': len(ambiguous),
+        'filtered_undefined': sum(x['filtered_undefined'] for x in tot.values()),
+        'expected_reject': 0,
+        'constraint_violations_not_generated': sum(x['constraint_violations_not_generated'] for x in tot.values()),
+        'corpus_programs': len(corpus),
+        'samples': samples,
+        'rule': 'S1: all 18 binary operators x T14 x T14; S2: unary, ++/--, 5 conversion contexts, 10 compound assignments, ?:, pointer '
+                'arithmetic/comparison incl. variably modified element types; S3: bit-fields (base x width x filler x 17 operations); '
+                'S4: all statement trees of the control-flow grammar up to the node bound; S5: every (size, alignment) aggregate copy form; '
+                'S6: hand-written corpus. Operand sets V(T) (%s values per type), all tuples with defined behaviour enumerated; every '
+                'function is run through cproc+il2c+gcc/ASan and through gcc and clang with UBSan+ASan; outputs and exit status compared' % (
+                    'first 5' if quick else 'all + thorough extras'),
+    }
+    if s4cap:
+        cov['S4_cap'] = s4cap
+        cov['exhaustive'] = False
+    return chk.finish(cov, [
+        'il2c implements the IL semantics faithfully (it is exercised by ~10^5 agreeing evaluations here; a disagreement is triaged by reading the IL)',
+        'gcc 12 and clang 14 on x86_64 are the witnesses: cproc is blamed only where both agree and are sanitizer-clean',
+        'aarch64/riscv64: only functions with a plain-char operand or result type are re-run with -t, executed on the host and compared with '
+        'gcc/clang -funsigned-char; legitimate because the IL for these functions differs from the x86_64 IL only in the signedness of char',
+        'IEEE semantics (Annex F) for floating division by zero and NaN; NaN results are canonicalised before comparison',
+        'signed right shift, out-of-range integer narrowing: implementation-defined, all three implementations document two\'s complement wrap / arithmetic shift',
+    ])
